@@ -68,15 +68,16 @@ Definition set_memid (s : state) (m : N) : state :=
 
 (** Running state of the replay. *)
 Record acc := { a_st : state; a_ws : list rec; a_mis : bool; a_vio : bool; a_known : N; a_next : N;
-  a_broken : bool;  (* some state of the run violated the recency-order invariant [tier_inv_b] *)
+  a_broken : bool;  (* some state of the run violated the recency order of equal internal keys ([tier_inv_b]) *)
   a_struct : bool   (* some state had an unsorted source or overlapping main tables ([src_b] false): never a known class *) }.
 
 Definition classify (spec model : option rec) (obs : option (bytes * N)) : N :=
-  (* a violation the faithful model reproduces, by kind of wrong winner:
-     1 = an older write of the same version won; 2 = a lower version won *)
+  (* a violation the faithful model reproduces: 1 = an older write of the same
+     version won.  (Class 2, "a lower version won", is gone with the repair of
+     the first-hit rule of LSM.Get: a wrong version is never a known class.) *)
   if negb (obs_eqb (option_map proj model) obs) then 0
   else match spec, model with
-       | Some w, Some m => if r_ver m =? r_ver w then 1 else if r_ver m <? r_ver w then 2 else 0
+       | Some w, Some m => if r_ver m =? r_ver w then 1 else 0
        | _, _ => 0
        end.
 
